@@ -22,10 +22,12 @@ import (
 	"math"
 	"os"
 	"path/filepath"
+	"reflect"
 	"runtime/pprof"
 	"sort"
 	"strconv"
 	"strings"
+	"time"
 
 	"github.com/Basekick-Labs/msgpack/v6"
 	"github.com/basekick-labs/arc/internal/config"
@@ -167,7 +169,7 @@ func itemStr(it interface{}, deep bool) string {
 			fs = append(fs, hx([]byte(k))+"="+deepVal(v))
 		}
 		for k, v := range r.Tags {
-			ts = append(ts, hx([]byte(k))+"="+hx([]byte(v)))
+			ts = append(ts, hx([]byte(k))+"="+tagText(v))
 		}
 		sort.Strings(fs)
 		sort.Strings(ts)
@@ -185,33 +187,67 @@ func itemStr(it interface{}, deep bool) string {
 	return fmt.Sprintf("?%T", it)
 }
 
+// deepVal: canonical, order-independent text of a decoded Go value. Never fmt %v: floats are bit
+// patterns, maps (of any key type, incl. duplicate NaN keys) are sorted lists of (key text, value text).
 func deepVal(v interface{}) string {
-	switch x := v.(type) {
-	case nil:
+	if v == nil {
 		return "_"
-	case float64:
-		return fmt.Sprintf("f64:%016x", math.Float64bits(x))
-	case float32:
-		return fmt.Sprintf("f32:%08x", math.Float32bits(x))
-	case string:
-		return "s:" + hx([]byte(x))
-	case []byte:
-		return "b:" + hx(x)
-	case []interface{}:
-		xs := make([]string, len(x))
-		for i, e := range x {
-			xs[i] = deepVal(e)
+	}
+	if t, ok := v.(time.Time); ok {
+		return "time:" + strconv.FormatInt(t.UnixNano(), 10)
+	}
+	rv := reflect.ValueOf(v)
+	switch rv.Kind() {
+	case reflect.Bool:
+		if rv.Bool() {
+			return "b:1"
+		}
+		return "b:0"
+	case reflect.Int, reflect.Int8, reflect.Int16, reflect.Int32, reflect.Int64:
+		return rv.Type().String() + ":" + strconv.FormatInt(rv.Int(), 10)
+	case reflect.Uint, reflect.Uint8, reflect.Uint16, reflect.Uint32, reflect.Uint64:
+		return rv.Type().String() + ":" + strconv.FormatUint(rv.Uint(), 10)
+	case reflect.Float32:
+		return fmt.Sprintf("f32:%08x", math.Float32bits(float32(rv.Float())))
+	case reflect.Float64:
+		return fmt.Sprintf("f64:%016x", math.Float64bits(rv.Float()))
+	case reflect.String:
+		return "s:" + hx([]byte(rv.String()))
+	case reflect.Slice, reflect.Array:
+		if rv.Kind() == reflect.Slice && rv.Type().Elem().Kind() == reflect.Uint8 {
+			return "b:" + hx(rv.Bytes())
+		}
+		xs := make([]string, rv.Len())
+		for i := range xs {
+			xs[i] = deepVal(rv.Index(i).Interface())
 		}
 		return "[" + strings.Join(xs, ",") + "]"
-	case map[string]interface{}:
-		xs := make([]string, 0, len(x))
-		for k, e := range x {
-			xs = append(xs, hx([]byte(k))+"="+deepVal(e))
+	case reflect.Map:
+		xs := make([]string, 0, rv.Len())
+		it := rv.MapRange()
+		for it.Next() {
+			xs = append(xs, deepVal(it.Key().Interface())+"="+deepVal(it.Value().Interface()))
 		}
 		sort.Strings(xs)
-		return "{" + strings.Join(xs, ",") + "}"
+		return rv.Type().String() + "{" + strings.Join(xs, ",") + "}"
+	case reflect.Ptr, reflect.Interface:
+		if rv.IsNil() {
+			return "_"
+		}
+		return deepVal(rv.Elem().Interface())
 	}
-	return fmt.Sprintf("%T:%v", v, v)
+	return "?" + rv.Type().String()
+}
+
+// tagText: row-format tag values are produced by the REAL code with fmt.Sprintf("%v", v); for a map
+// with several NaN keys fmt's entry order is unspecified, so such strings are compared as token multisets.
+func tagText(v string) string {
+	if strings.Count(v, "NaN:") >= 2 {
+		fs := strings.Fields(strings.NewReplacer("[", " ", "]", " ").Replace(v))
+		sort.Strings(fs)
+		return "nanmap:" + hx([]byte(strings.Join(fs, " ")))
+	}
+	return hx([]byte(v))
 }
 
 // decodeObs: Decode with the flag + typing step; deep selects monitor-level detail.
